@@ -709,6 +709,9 @@ class ITerm2Image(GraphicsImage, metaclass=ITerm2ImageMeta):
                     format,
                     compress_level=compress,  # PNG
                     quality=jpeg_quality,
+                    # Transparency is entirely determined by the alpha channel, if any.
+                    # Avoids a color-key (tRNS) carried over from the source.
+                    transparency=None,  # PNG
                 )
 
         # clean up (ImageIterator uses one PIL image throughout)
